@@ -15,81 +15,72 @@
    The transitions are printed (Export) and become the executions of the real decoder_init(). *)
 EXTENDS MFDamage, Json
 
-VARIABLES phase, m, kind, dmg, verdict
-vars == <<phase, m, kind, dmg, verdict>>
+VARIABLES phase, m, kind, dmg, verdict, cache
+vars == <<phase, m, kind, dmg, verdict, cache>>
+View == <<phase, m, kind, dmg, verdict>>
 
-PresentKinds(D) == {Kinds[i] : i \in {j \in 1 .. Len(Kinds) : Present(D[Kinds[j]])}}
-
-(* everything about the intact instances.  Intact is a constant bound in the configuration to the operator
-   AllIntact of the root module (TLC evaluates zero-arity constant definitions once only when they are in the root
-   module; evaluating this one takes as long as a few hundred transitions) *)
-IntactOf(i) == LET D == DirOf(Models[i]) IN [dir |-> D, P |-> ParseDir(D, FeatCfg(D.featparams))]
-CONSTANT Intact
-FldsOf(i, k) == IF k = "featparams" THEN <<Fld("text", 0, "data", Intact[i].dir.featparams.len)>> ELSE Intact[i].P[k].flds
+(* everything about the intact instances is computed once, in Init, and carried in the variable cache (whether TLC
+   keeps the value of a constant definition depends on where it is defined and in what order definitions are
+   processed; a definition evaluated on every use makes a transition cost as much as reading 28 files) *)
+Flds(i, k) == FldsOf(cache[i], k)
 NVariants(i, k) == Len(Variants(Models[i], k))
-
-Damaged(i, k, d) == Apply(Models[i], k, Intact[i].dir[k], FldsOf(i, k), d, Models[i].be)
-ParseWith(i, k, f) ==
-    LET D == [Intact[i].dir EXCEPT ![k] = f]
-        fp == FeatCfg(D.featparams)
-        P0 == Intact[i].P
-    IN  \* only the damaged file is read again; a senone dump is read against its siblings, so it follows mdef and means
-        IF k \in {"mdef", "means", "sendump", "featparams", "lda"} THEN ParseDir(D, fp)
-        ELSE IF k = "variances" THEN [P0 EXCEPT !.variances = Gauden(f)]
-        ELSE IF k = "tmat" THEN [P0 EXCEPT !.tmat = Tmat(f)]
-        ELSE [P0 EXCEPT !.mixw = IF Present(f) THEN Mixw(f) ELSE [st |-> "absent"]]
+Damaged(i, k, d) == DamagedFile(Models[i], cache[i], k, d)
 
 Init == phase = "fresh" /\ m \in 1 .. Len(Models) /\ kind = "-" /\ dmg = Dmg("-", 0, 0) /\ verdict = "-"
+        /\ cache = <<IntactOf(1), IntactOf(2), IntactOf(3), IntactOf(4)>>
 
 Attempt(k, d) ==
     /\ phase = "fresh"
-    /\ Applicable(Intact[m].dir[k], FldsOf(m, k), d, Models[m].be)
-    /\ phase' = "attempted" /\ kind' = k /\ dmg' = d /\ m' = m
-    /\ verdict' = Loadable3(ParseWith(m, k, Damaged(m, k, d)))
+    /\ Applicable(cache[m].dir[k], Flds(m, k), d, Models[m].be)
+    /\ phase' = "attempted" /\ kind' = k /\ dmg' = d /\ m' = m /\ cache' = cache
+    /\ verdict' = Loadable3(ParseWith(cache[m], k, Damaged(m, k, d)))
 
-Reload == phase = "attempted" /\ phase' = "reloaded" /\ verdict' = Loadable3(Intact[m].P) /\ UNCHANGED <<m, kind, dmg>>
+Reload == phase = "attempted" /\ phase' = "reloaded" /\ verdict' = Loadable3(cache[m].P) /\ UNCHANGED <<m, kind, dmg, cache>>
 
-Next == (\E k \in PresentKinds(Intact[m].dir) : \E d \in Damages(Intact[m].dir[k], FldsOf(m, k), NVariants(m, k)) : Attempt(k, d)) \/ Reload
+Next == (\E k \in PresentKinds(cache[m].dir) : \E d \in Damages(cache[m].dir[k], Flds(m, k), NVariants(m, k)) : Attempt(k, d)) \/ Reload
 Spec == Init /\ [][Next]_vars
 
 (* ---- theorems about the formats ---- *)
 ExpectedGmm == <<"ptm", "s2_semi", "ms", "ptm">>
-ReadToEnd(i) == \A k \in PresentKinds(Intact[i].dir) \ {"featparams"} : Intact[i].P[k].st = "ok" /\ Intact[i].P[k].end = Intact[i].dir[k].len
+ReadToEnd(i) == \A k \in PresentKinds(cache[i].dir) \ {"featparams"} : cache[i].P[k].st = "ok" /\ cache[i].P[k].end = cache[i].dir[k].len
 Announces(i) ==
     LET M == Models[i]
-        P == Intact[i].P
+        P == cache[i].P
     IN  /\ P.mdef.d.n_ciphone = Len(M.mdef.cin) /\ P.mdef.d.n_phone = Len(M.mdef.phones) /\ P.mdef.d.n_sen = M.mdef.n_sen
         /\ P.mdef.d.n_sseq = Len(M.mdef.sseq) /\ P.mdef.d.n_cd_tree = Len(M.mdef.tree) /\ P.mdef.d.sseq_size = Len(M.mdef.sseq) * M.mdef.n_emit
         /\ P.means.d = [n_mgau |-> M.gau.n_mgau, n_feat |-> 1, n_density |-> M.gau.n_density, veclen |-> M.gau.veclen]
         /\ P.tmat.d = [n_tmat |-> M.tmat.n_tmat, n_state |-> M.tmat.n_src]
         /\ P.means.sw = M.be /\ P.mdef.sw = M.be /\ P.tmat.sw = M.be
-IntactOK == \A i \in 1 .. Len(Models) : Loadable3(Intact[i].P) = "T" /\ WhichGmm(Intact[i].P) = ExpectedGmm[i] /\ ReadToEnd(i) /\ Announces(i)
+IntactOK == \A i \in 1 .. Len(Models) : Loadable3(cache[i].P) = "T" /\ WhichGmm(cache[i].P) = ExpectedGmm[i] /\ ReadToEnd(i) /\ Announces(i)
 
-TruncationRefused == phase = "attempted" /\ dmg.c = "trunc" /\ kind # "featparams" => verdict = "F"
+(* the one exception: ptm and s2_semi read mixture_weights without looking at its checksum (read_mixw), so cutting
+   into the checksum only goes unnoticed in models that these modules load *)
+UnverifiedTail == kind = "mixw" /\ WhichGmm(cache[m].P) # "ms" /\ cache[m].P.mixw.chk /\ dmg.a >= cache[m].P.mixw.end - 4
+TruncationRefused == phase = "attempted" /\ dmg.c = "trunc" /\ kind # "featparams" /\ ~UnverifiedTail => verdict = "F"
 MandatoryMissingRefused == phase = "attempted" /\ dmg.c = "missing" /\ kind \in {"mdef", "means", "variances", "tmat", "sendump", "mixw"} => verdict = "F"
 ExtensionAllowed == phase = "attempted" /\ dmg.c = "extend" /\ kind # "featparams" => verdict = "T"
 Decided == phase = "attempted" /\ kind # "featparams" => verdict \in {"T", "F"}
 ReloadLoads == phase = "reloaded" => verdict = "T"
 TypeOK == phase \in {"fresh", "attempted", "reloaded"} /\ verdict \in {"-", "T", "F", "U"}
 
-(* ---- export: one line per Attempt transition ---- *)
+(* ---- export: one line per Attempt transition; the intact directory of a model is printed with the one transition
+   "model definition missing" ---- *)
+SumKinds(i) == {k \in {"means", "variances", "tmat", "mixw", "lda"} : cache[i].P[k].st = "ok" /\ cache[i].P[k].chk}
+ModelJson(i) ==
+    ToJson([model |-> i, name |-> Models[i].name,
+            files |-> [j \in 1 .. Len(Kinds) |-> [kind |-> Kinds[j], file |-> FileNames[Kinds[j]], present |-> Present(cache[i].dir[Kinds[j]]),
+                                                  bytes |-> BytesOf(cache[i].dir[Kinds[j]])]],
+            sums |-> [k \in SumKinds(i) |-> <<cache[i].P[k].pos, cache[i].P[k].dend, cache[i].P[k].sw>>],
+            gmm |-> WhichGmm(cache[i].P), mdef |-> cache[i].P.mdef.d, means |-> cache[i].P.means.d, tmat |-> cache[i].P.tmat.d])
 Export ==
     IF phase = "fresh" /\ phase' = "attempted"
     THEN LET f == Damaged(m, kind', dmg')
-             P == ParseWith(m, kind', f)
-         IN  PrintT(<<"CASE", ToJson([model |-> m, name |-> Models[m].name, kind |-> kind', file |-> FileNames[kind'],
-                                      dmg |-> DmgName(Models[m], kind', FldsOf(m, kind'), dmg'),
-                                      cls |-> DmgClass(Models[m], kind', FldsOf(m, kind'), dmg'),
-                                      present |-> Present(f), bytes |-> BytesOf(f),
-                                      verdict |-> verdict', why |-> Why(P), gmm |-> WhichGmm(P)])>>)
+             P == ParseWith(cache[m], kind', f)
+         IN  /\ (kind' = "mdef" /\ dmg'.c = "missing") => PrintT(<<"MODEL", ModelJson(m)>>)
+             /\ PrintT(<<"CASE", ToJson([model |-> m, name |-> Models[m].name, kind |-> kind', file |-> FileNames[kind'],
+                                         dmg |-> DmgName(Models[m], kind', Flds(m, kind'), dmg'),
+                                         cls |-> DmgClass(Models[m], kind', Flds(m, kind'), dmg'),
+                                         present |-> Present(f), bytes |-> BytesOf(f),
+                                         verdict |-> verdict', why |-> Why(P), gmm |-> WhichGmm(P)])>>)
     ELSE TRUE
-(* the intact directories: printed once per model from the initial states *)
-ExportModels ==
-    \A i \in 1 .. Len(Models) :
-        PrintT(<<"MODEL", ToJson([model |-> i, name |-> Models[i].name,
-                                  files |-> [j \in 1 .. Len(Kinds) |->
-                                                [kind |-> Kinds[j], file |-> FileNames[Kinds[j]], present |-> Present(Intact[i].dir[Kinds[j]]),
-                                                 bytes |-> BytesOf(Intact[i].dir[Kinds[j]])]],
-                                  gmm |-> WhichGmm(Intact[i].P),
-                                  mdef |-> Intact[i].P.mdef.d, means |-> Intact[i].P.means.d, tmat |-> Intact[i].P.tmat.d])>>)
 =============================================================================
